@@ -112,14 +112,15 @@ fn inv_mod(a: i64) -> i64 {
     r
 }
 
-/// p/q with small q such that p/q == x exactly in f64, if any.
+/// p/q with small p and q such that p/q == x exactly in f64, if any (large magnitudes are not recognised:
+/// there the grid of such rationals is finer than the floating-point spacing and anything would match).
 fn rational(x: f64) -> Option<(i64, i64)> {
     if !x.is_finite() {
         return None;
     }
     for q in 1..=720i64 {
         let p = (x * q as f64).round();
-        if p.abs() < 1e12 && p / q as f64 == x {
+        if p.abs() <= 1e6 && p / q as f64 == x {
             return Some((p as i64, q));
         }
     }
@@ -344,7 +345,12 @@ pub fn eval(e: &Expression, p: &Point) -> Option<Complex64> {
 }
 
 fn near_cut(c: Complex64) -> bool {
-    // on (or within rounding of) the negative real axis, or at the origin: `ln` jumps there
+    // on (or within rounding of) the negative real axis, or within rounding of the origin: `ln` jumps
+    // there.  An *exact* zero is not sensitive: 0^y is 0, 1 (y = 0) or not finite whatever the signs of
+    // the zeros, and sqrt(0) = 0 - so 0^0 and (x-x)^y stay judged.
+    if c.re == 0.0 && c.im == 0.0 {
+        return false;
+    }
     let n = c.norm();
     !n.is_finite() || n < 1e-9 || (c.re < 0.0 && c.im.abs() <= 1e-6 * c.re.abs())
 }
